@@ -164,6 +164,7 @@ def run(ctx):
     ctx.assumptions += ["usernames / services are valid UTF-8 (byte equality = str equality)"]
     ctx.prove()
     scale = 6 if ctx.thorough else 1
+    c14.gss_witness(ctx)        # the shared auth model is of the repaired gssapi paths: name the input if they regress
     c14.run_sequences(ctx, 140 * scale, c16_oracle, "seq", profiles=["brute", "brute", "mixed", "lenient"])
     ungated_sequences(ctx, 6 * scale)
     loopback_bruteforce(ctx, 2 if not ctx.thorough else 5)
@@ -171,6 +172,8 @@ def run(ctx):
 
 def replay(ctx, rep):
     case = rep.get("case") or {}
+    if str(rep.get("key", "")).startswith("gssapi-"):
+        return c14.replay(ctx, rep)
     if "steps" not in case:
         return run(ctx)
     World, _, _ = c14.make_world()
